@@ -1178,6 +1178,12 @@ func (f *framer) parseResultRows() frame {
 	if result.numRows < 0 {
 		panic(fmt.Errorf("invalid row_count in result frame: %d", result.numRows))
 	}
+	// Every row holds one [bytes] value, i.e. at least its 4 length bytes, per column: a row
+	// count that the rest of the body cannot hold (or rows without any column, which take no
+	// bytes at all and would be iterated without end) marks a corrupt frame.
+	if cells := int64(result.numRows) * int64(result.meta.colCount); cells*4 > int64(len(f.buf)) || (result.meta.colCount == 0 && result.numRows > 0) {
+		panic(fmt.Errorf("invalid row_count in result frame: %d rows of %d columns in %d bytes", result.numRows, result.meta.colCount, len(f.buf)))
+	}
 
 	return result
 }
